@@ -35,7 +35,7 @@ goalign reformat clustal -i align.fasta
 		defer utils.CloseWriteFile(f, reformatOutput)
 
 		a := <-aligns.Achan
-		if aligns.Err != nil {
+		if a == nil {
 			err = aligns.Err
 			io.LogError(err)
 			return
